@@ -859,6 +859,9 @@ func (vc *FnVC) alloc(st *State, a *ssa.Alloc) *Val {
 	if isStruct(elem) {
 		ref := vc.newRef(st, a.Comment)
 		vc.storeStruct(st, elem, ref, vc.zeroVal(elem))
+		if vc.ownedValue(a) {
+			vc.owned = append(vc.owned, ref)
+		}
 		return &Val{T: a.Type(), S: ref}
 	}
 	s := sortOf(elem)
@@ -1225,7 +1228,14 @@ func (vc *FnVC) havocSet(st *State, ws map[string]bool, all bool) {
 				continue
 			}
 		}
+		old := vc.get(st, k)
 		vc.havocKey(st, k)
+		// objects allocated by this function whose address never left it cannot be touched by the callee
+		if ki := vc.keys[k]; ki != nil && strings.HasPrefix(ki.Sort, "(Array Int ") && !vc.inLoopHavoc {
+			for _, o := range vc.owned {
+				vc.assume(st, sx("=", sx("select", vc.get(st, k), o), sx("select", old, o)))
+			}
+		}
 	}
 	if ws["$alloc"] || all {
 		if !ws["$alloc"] {
@@ -1400,4 +1410,36 @@ func phiAlias(comment string) string {
 		return "rangeiter"
 	}
 	return comment
+}
+
+// ownedValue: v is a pointer to an object allocated by this function whose address is only dereferenced here or
+// handed to library methods with (trusted) contracts or pure library functions -- so no other code can reach it.
+func (vc *FnVC) ownedValue(v ssa.Value) bool {
+	refs := v.Referrers()
+	if refs == nil {
+		return false
+	}
+	for _, r := range *refs {
+		switch x := r.(type) {
+		case *ssa.DebugRef, *ssa.FieldAddr:
+		case *ssa.UnOp:
+		case *ssa.Store:
+			if x.Val == v {
+				return false // the pointer itself is stored somewhere
+			}
+		case ssa.CallInstruction:
+			c := x.Common()
+			callee := c.StaticCallee()
+			if callee == nil || c.IsInvoke() {
+				return false
+			}
+			u := vc.G.unitFor(callee)
+			if !(u != nil && u.Trusted) && !vc.G.isPureLib(callee) {
+				return false
+			}
+		default:
+			return false
+		}
+	}
+	return true
 }
